@@ -11,6 +11,7 @@
    encoding/json's byte-level parser/printer are Section variables of the *_bytes theorems. *)
 From Coq Require Import List NArith ZArith String.
 From Snow Require Import Lib.Wire Model.JsonBoundary Model.Messages Proofs.MessagesProofs.
+From Snow Require Import Model.MessagesPanic Proofs.MessagesPanicProofs.
 Import ListNotations.
 Open Scope N_scope.
 
@@ -188,6 +189,113 @@ Proof. exact accept_client_response. Qed.
 Theorem C12_reject_iff_bytes : forall (parse : bytes -> option json) (A : Type) (d : json -> result A) data,
   opt_decode d (parse data) = Err <-> parse data = None \/ exists v, parse data = Some v /\ d v = Err.
 Proof. exact reject_iff_bytes. Qed.
+
+(* ---- "return an error, never a panic".  Model/MessagesPanic.v: the decoders at the granularity at which
+   the Go code can panic - parts[0] / parts[1] after bytes.SplitN, strings.Split(v, ".")[0], the dereference
+   *message.AcceptedRelayPattern, (and reading a struct field at its static type, a model artefact) are steps
+   that yield [DPanic]; [CODE] = the two checks as written, [GO] = executable models of the two library calls
+   (tied to the real ones by the ops vsplit / nsplit).  For EVERY byte string, through the library parser
+   (None = not one valid JSON text), none of the eight exported decoders reaches DPanic.
+   encoding/json's own panic freedom is observed on every case, not proved. *)
+Theorem C12_decoders_never_panic : forall (parse : bytes -> option json) (data : bytes) (w : dwhy),
+  opt_decode_g decode_proxy_poll_code (parse data) <> DPanic w                 (* DecodeProxyPollRequestWithRelayPrefix *)
+  /\ opt_decode_g decode_proxy_poll_legacy_code (parse data) <> DPanic w       (* DecodeProxyPollRequest *)
+  /\ opt_decode_g decode_poll_response_g (parse data) <> DPanic w              (* DecodePollResponseWithRelayURL *)
+  /\ opt_decode_g decode_poll_response_legacy_g (parse data) <> DPanic w       (* DecodePollResponse *)
+  /\ opt_decode_g decode_answer_request_code (parse data) <> DPanic w          (* DecodeAnswerRequest *)
+  /\ opt_decode_g decode_answer_response_g (parse data) <> DPanic w            (* DecodeAnswerResponse *)
+  /\ decode_client_poll_code parse data <> DPanic w                            (* DecodeClientPollRequest *)
+  /\ opt_decode_g decode_client_response_g (parse data) <> DPanic w.           (* DecodeClientPollResponse *)
+Proof. exact decoders_never_panic. Qed.
+
+(* the same for any library whose Split returns at least one element (all the code needs of strings.Split;
+   of bytes.SplitN it needs nothing: `len(parts) < 2` covers every slice) *)
+Theorem C12_decoders_never_panic_any_library : forall (L : libs), (forall s, l_split L s <> []) ->
+  forall (parse : bytes -> option json) (data : bytes), never_panics L parse data.
+Proof. exact decoders_never_panic_lib. Qed.
+
+Example C12_any_library_nonvacuous : (forall s, l_split GO s <> []) /\ (forall s, l_split (mkLibs (fun s => [s]) (fun _ => [])) s <> []).
+Proof. split; [exact GO_split_ok | intros s; discriminate]. Qed.
+
+(* the executable models of the two library calls are the library's specification *)
+Theorem C12_split_spec : forall s : bytes,
+  nth_error (split_dot s) 0 = Some (before_dot s)
+  /\ List.length (split_dot s) = S (count_dots s)
+  /\ join [46] (split_dot s) = s
+  /\ Forall (fun p => ~ In 46 p) (split_dot s).
+Proof. intros s. split; [apply split_dot_head | apply split_dot_spec]. Qed.
+
+Theorem C12_splitn_spec : forall data : bytes,
+  (splitn_nl data = [data] /\ ~ In 10 data)
+  \/ exists a b, splitn_nl data = [a; b] /\ data = a ++ 10 :: b /\ ~ In 10 a.
+Proof. exact splitn_nl_spec. Qed.
+
+(* refinement: the fine decoders return exactly what the decoders of Model/Messages.v return, so every
+   theorem above (round trips, defaults, reject_iff, accept) is a theorem about them *)
+Theorem C12_decoders_refine : forall (parse : bytes -> option json) (data : bytes),
+  opt_decode_g decode_proxy_poll_code (parse data) = DVal (opt_decode decode_proxy_poll (parse data))
+  /\ opt_decode_g decode_proxy_poll_legacy_code (parse data) = DVal (opt_decode decode_proxy_poll_legacy (parse data))
+  /\ opt_decode_g decode_poll_response_g (parse data) = DVal (opt_decode decode_poll_response (parse data))
+  /\ opt_decode_g decode_poll_response_legacy_g (parse data) = DVal (opt_decode decode_poll_response_legacy (parse data))
+  /\ opt_decode_g decode_answer_request_code (parse data) = DVal (opt_decode decode_answer_request (parse data))
+  /\ opt_decode_g decode_answer_response_g (parse data) = DVal (opt_decode decode_answer_response (parse data))
+  /\ decode_client_poll_code parse data = DVal (decode_client_poll parse data)
+  /\ opt_decode_g decode_client_response_g (parse data) = DVal (opt_decode decode_client_response (parse data)).
+Proof. exact decoders_refine. Qed.
+
+Theorem C12_decoders_refine_values :
+  (forall v, decode_proxy_poll_code v = DVal (decode_proxy_poll v))
+  /\ (forall v, decode_proxy_poll_legacy_code v = DVal (decode_proxy_poll_legacy v))
+  /\ (forall v, decode_poll_response_g v = DVal (decode_poll_response v))
+  /\ (forall v, decode_poll_response_legacy_g v = DVal (decode_poll_response_legacy v))
+  /\ (forall v, decode_answer_request_code v = DVal (decode_answer_request v))
+  /\ (forall v, decode_answer_response_g v = DVal (decode_answer_response v))
+  /\ (forall v, decode_client_poll_body_g v = DVal (decode_client_poll_body v))
+  /\ (forall v, decode_client_response_g v = DVal (decode_client_response v)).
+Proof.
+  repeat split; [apply proxy_poll_refines | apply proxy_poll_legacy_refines | apply poll_response_refines
+                | apply poll_response_legacy_refines | apply answer_request_refines | apply answer_response_refines
+                | apply client_poll_body_refines | apply client_response_refines].
+Qed.
+
+(* each check the code makes is the reason its step is safe: without it there is an input on which the
+   function panics, which the code as written answers with an error / a value *)
+Theorem C12_len_guard_needed : forall parse : bytes -> option json,
+  decode_client_poll_g (mkGuards false true) GO parse (bs "1.0") = DPanic WIndex
+  /\ decode_client_poll_code parse (bs "1.0") = DVal Err.
+Proof. exact len_guard_needed. Qed.
+
+Theorem C12_nil_guard_needed :
+  let v := JObj [(bs "Sid", JStr (bs "x")); (bs "Version", JStr (bs "1.2"))] in
+  decode_proxy_poll_g (mkGuards true false) GO v = DPanic WNilDeref
+  /\ decode_proxy_poll_code v =
+     DVal (Ok {| pq_sid := bs "x"; pq_type := bs "unknown"; pq_nat := bs "unknown"; pq_clients := 0%Z;
+                 pq_pattern := []; pq_aware := false |}).
+Proof. exact nil_guard_needed. Qed.
+
+(* strings.Split(message.Version, ".")[0] has no check: it rests on the library (C12_split_spec); and
+   `len(parts) < 2` is enough even for a SplitN that returned an empty slice *)
+Theorem C12_split_contract_needed :
+  let L := mkLibs (fun _ => []) splitn_nl in
+  decode_proxy_poll_g CODE L (JObj [(bs "Sid", JStr (bs "x")); (bs "Version", JStr (bs "1.2"))]) = DPanic WIndex
+  /\ decode_answer_request_g L (JObj []) = DPanic WIndex.
+Proof. exact split_contract_needed. Qed.
+
+Theorem C12_len_guard_suffices :
+  decode_client_poll_g CODE (mkLibs split_dot (fun _ => [])) (fun _ => None) [] = DVal Err
+  /\ decode_client_poll_g (mkGuards false true) (mkLibs split_dot (fun _ => [])) (fun _ => None) [] = DPanic WIndex.
+Proof. exact len_guard_suffices. Qed.
+
+(* encoders: the only partial operation is the pointer receiver of EncodeClientPollRequest (every call site
+   in the repository passes the address of a struct literal); EncodePollResponse on a nil receiver marshals null *)
+Theorem C12_encoders_never_panic :
+  (forall offer nat fp, encode_client_poll_g (Some (offer, nat, fp)) = DVal (Ok (encode_client_poll offer nat fp)))
+  /\ (forall resp w, encode_client_response_g resp <> DPanic w).
+Proof. split; [exact encode_client_poll_safe | intros resp w; apply not_panic; apply encode_client_response_safe]. Qed.
+
+Theorem C12_encode_nil_receiver :
+  encode_client_poll_g None = DPanic WNilDeref /\ encode_client_response_g None = DVal (Ok JNull).
+Proof. exact encode_nil_receiver. Qed.
 
 (* ---- non-vacuity *)
 Definition ex_poll : json :=
